@@ -267,6 +267,7 @@ type Sim struct {
 	InCallback func(s *Sim, name string, t *pokertable.Table)
 	// InCallbackLive additionally receives the engine's live table (as real callers do).
 	InCallbackLive func(s *Sim, name string, live, clone *pokertable.Table)
+	OpenWaitExtra  time.Duration // added to the wait for a hand to open (retry scenarios)
 	FenceWait      time.Duration // overrides the wait for the post-settlement fence when > 0
 
 	q        *queue
